@@ -1314,6 +1314,21 @@ def _closure_on(clo, arg):
     return None
 
 
+def _ctor_of(f_):
+    """(enum path, variant) when the function item f_ is a tuple-variant constructor (Some, Ok, Err, a local enum's)"""
+    from . import mir as _m
+    par_, _, var_ = f_[1].rpartition("::")
+    if par_.startswith(("std::", "core::")) and var_ == "Some":  # (also the prelude path std::prelude::v1::Some)
+        return ("std::option::Option", "Some")
+    if par_.startswith(("std::", "core::")) and var_ in ("Ok", "Err"):
+        return ("std::result::Result", var_)
+    for pr in _m.PROGRAMS:
+        adt_ = pr.adts.get(par_)
+        if adt_ is not None and any(v_.get("name") == var_ for v_ in adt_.get("variants", [])):
+            return (par_, var_)
+    return None
+
+
 def _map_or_alts(x):
     """the two values `opt.map_or(D, f)` can take, when f is a closure or an enum-variant constructor"""
     from . import mir as _m
@@ -1377,6 +1392,10 @@ def ok_payload(t, tag="Ok/Some"):
             elif a[0] == "call" and a[1] in ("std::option::Option::map", "std::result::Result::map") and len(a[2]) == 2 and a[2][1][0] == "closure":
                 r = _closure_on(a[2][1], ok_payload(a[2][0]))
                 alts2.append(("__value__", r) if r is not None else a)
+            elif a[0] == "call" and a[1] in ("std::option::Option::map", "std::result::Result::map") and len(a[2]) == 2 and a[2][1][0] == "fn" and _ctor_of(a[2][1]) is not None:
+                # x.map(Some) / x.map(Wrapper::Variant): the constructor applied to the payload of x
+                par_, var_ = _ctor_of(a[2][1])
+                alts2.append(("__value__", ("agg", par_, var_, (("fld", "0", ok_payload(a[2][0])),))))
             else:
                 alts2.append(a)
         if any(x[0] in ("__payload_of__", "__value__") for x in alts2):
